@@ -376,6 +376,15 @@ pub open spec fn iter_payloads<B: crate::vshim::Buf, T: Iterator<Item = B>>(it: 
     it.remaining().map_values(|b: B| b.rem())
 }
 
+/// a one-element iterator carries a one-element batch (used for the wrapper `append_record` = `append_records(once(payload))`)
+pub broadcast proof fn lemma_iter_payloads_single<B: crate::vshim::Buf, T: Iterator<Item = B>>(it: T)
+    requires it.remaining().len() == 1,
+    ensures #[trigger] iter_payloads(it) == seq![it.remaining()[0].rem()],
+{
+    reveal(iter_payloads);
+    assert(iter_payloads(it) =~= seq![it.remaining()[0].rem()]);
+}
+
 /// the payload iterator behaves like a finite sequence (vstd's iterator laws)
 pub open spec fn iter_ok<T: Iterator>(it: T) -> bool {
     it.obeys_prophetic_iter_laws() && it.decrease() is Some
